@@ -45,6 +45,9 @@ Proof. exact possible_nonempty. Qed.
    solver contains, for every kind of the file, exactly `quantity` rooms of its capacity *)
 Theorem C18_rooms_file : forall raw, Permutation (kinds_read raw) raw /\ Permutation (rooms_of_kinds (kinds_read raw)) (rooms_of_kinds raw).
 Proof. intros raw. split; [apply kinds_read_perm|apply rooms_read_perm]. Qed.
+Theorem C18_rooms_file_sorted : forall raw i j, i <= j -> j < length (kinds_read raw) ->
+  kind_cap (nth j (kinds_read raw) (0, 0, 0)) <= kind_cap (nth i (kinds_read raw) (0, 0, 0)).
+Proof. exact kinds_read_descending. Qed.
 
 (* composed with C06: for EVERY solution the search can end with under a room list (any worker count and interleaving), the possible-room
    listing computed from that solution and that room list offers only usable rooms, and offers at least one to every course that
@@ -81,12 +84,13 @@ Qed.
 Example C18_example : dedup (listed [5;3;0] [6;5;3] 0) = [6; 5] /\ dedup (listed [5;3;0] [6;5;3] 1) = [6; 5; 3] /\ listed [5;3;0] [6;5;3] 2 <> [].
 Proof. vm_compute. repeat split; discriminate. Qed.
 
-Check C18_for_solutions. Check C18_rooms_file. Check C18. Check C18_nonempty. Check C18_kinds. Check C18_course_level. Check C18_rooms_permuted. Check C18_course_nonempty.
+Check C18_rooms_file_sorted. Check C18_for_solutions. Check C18_rooms_file. Check C18. Check C18_nonempty. Check C18_kinds. Check C18_course_level. Check C18_rooms_permuted. Check C18_course_nonempty.
 Print Assumptions C18.
 Print Assumptions C18_nonempty.
 Print Assumptions C18_kinds.
 Print Assumptions C18_for_solutions.
 Print Assumptions C18_rooms_file.
+Print Assumptions C18_rooms_file_sorted.
 Print Assumptions C18_course_level.
 Print Assumptions C18_rooms_permuted.
 Print Assumptions C18_course_nonempty.
